@@ -121,7 +121,7 @@ static void on_access(const char* kind, const std::string& path) {
   }
 }
 
-// returns: 0 none, 1 absent, 2 empty, 3 eacces
+// returns: 0 none, 1 absent, 2 empty, 3 eacces, 4 readfail
 static int file_fault(const std::string& path) {
   if (!active()) {
     return 0;
@@ -136,6 +136,9 @@ static int file_fault(const std::string& path) {
       }
       if (ff.mode == "eacces") {
         return 3;
+      }
+      if (ff.mode == "readfail") {
+        return 4; // the open succeeds, every read(2) on the descriptor fails (EISDIR): kernfs ENODEV / EOPNOTSUPP / EIO stand-in
       }
     }
   }
@@ -591,6 +594,9 @@ static int open_common(int dirfd, const char* path, int flags, mode_t mode, cons
     if (ff == 2) {
       return real(AT_FDCWD, "/dev/null", O_RDONLY | O_CLOEXEC);
     }
+    if (ff == 4) {
+      return real(AT_FDCWD, g.root.c_str(), O_RDONLY | O_CLOEXEC);
+    }
   }
   return real(dirfd, p, flags, mode);
 }
@@ -657,6 +663,9 @@ static FILE* fopen_common(const char* path, const char* mode, const char* sym) {
     }
     if (ff == 2) {
       return real("/dev/null", mode);
+    }
+    if (ff == 4) {
+      return real(g.root.c_str(), mode);
     }
   }
   return real(p, mode);
@@ -828,17 +837,75 @@ int pthread_mutex_unlock(pthread_mutex_t* m) {
 #endif
 
 #ifdef VERIF_HAVE_SYSTEMD
+// A scripted system bus: "dbus": "ok" makes the manager accept every method call (the call is recorded), anything else
+// refuses the connection as before. Fake handles; libsystemd is never entered.
 struct sd_bus;
+struct sd_bus_message;
+struct sd_bus_error_v {
+  const char* name;
+  const char* message;
+  int need_free;
+};
+static char fake_bus_obj, fake_msg_obj;
 int sd_bus_open_system(sd_bus** ret) {
+  bool ok = g.armed && g.scn.get("dbus", "").asString() == "ok";
   if (g.armed) {
     Json::Value e;
     e["ev"] = "sd_bus_open_system";
+    e["ok"] = ok;
     ev(e);
   }
   if (ret) {
-    *ret = nullptr;
+    *ret = ok ? (sd_bus*)&fake_bus_obj : nullptr;
   }
-  return -ENOENT;
+  return ok ? 0 : -ENOENT;
+}
+int sd_bus_call_method(sd_bus* bus, const char* dest, const char* path, const char* iface, const char* member, void* error,
+                       sd_bus_message** reply, const char* types, ...) {
+  Json::Value e;
+  e["ev"] = "sd_bus_call_method";
+  e["member"] = member ? member : "";
+  e["dest"] = dest ? dest : "";
+  Json::Value args(Json::arrayValue);
+  va_list ap;
+  va_start(ap, types);
+  for (const char* t = types; t && *t; ++t) {
+    if (*t == 's') {
+      const char* a = va_arg(ap, const char*);
+      args.append(a ? a : "");
+    } else {
+      break;
+    }
+  }
+  va_end(ap);
+  e["args"] = args;
+  if (g.armed) {
+    ev(e);
+  }
+  if (reply) {
+    *reply = (sd_bus_message*)&fake_msg_obj;
+  }
+  return bus == (sd_bus*)&fake_bus_obj ? 1 : -ENOTCONN;
+}
+int sd_bus_message_read(sd_bus_message* m, const char* types, ...) {
+  va_list ap;
+  va_start(ap, types);
+  if (types && types[0] == 'o') {
+    const char** out = va_arg(ap, const char**);
+    if (out) {
+      *out = "/org/freedesktop/systemd1/job/4711";
+    }
+  }
+  va_end(ap);
+  return m == (sd_bus_message*)&fake_msg_obj ? 1 : -EINVAL;
+}
+void sd_bus_error_free(void*) {}
+sd_bus_message* sd_bus_message_unref(sd_bus_message*) {
+  return nullptr;
+}
+void sd_bus_close(sd_bus*) {}
+sd_bus* sd_bus_unref(sd_bus*) {
+  return nullptr;
 }
 #endif
 
